@@ -181,10 +181,19 @@ impl<'a, D> DfsPred<'a, D> {
         D: Order,
         T: Iterator<Item = usize>,
     {
+        let order = digraph.order();
+        let mut stack = Vec::new();
+
+        for u in sources {
+            assert!(u < order, "u = {u} isn't in the digraph");
+
+            stack.push((None, u));
+        }
+
         Self {
             digraph,
-            stack: sources.map(|u| (None, u)).collect(),
-            visited: vec![false; digraph.order()],
+            stack,
+            visited: vec![false; order],
         }
     }
 
